@@ -11,6 +11,7 @@ mod c11;
 mod c04;
 mod c06;
 mod c05;
+mod c12;
 mod findings;
 
 use report::Report;
@@ -46,6 +47,9 @@ fn run_named(name: &str, tier: &str, seed: u64, standin: bool) -> String {
         (false, "c05") => { c05::search(&mut r, tier, seed); true }
         (true, "map_iters") => { c05::standin_map_iters(&mut r); true }
         (true, "orswot_iter") => { c04::standin_orswot_iter(&mut r); true }
+        (true, "identifier_between") => { c12::standin_identifier_between(&mut r, tier); true }
+        (true, "list_reads") => { c12::standin_list_reads(&mut r); true }
+        (false, "c12") => { c12::search(&mut r, tier, seed); true }
         _ => false,
     };
     if !known {
@@ -76,6 +80,9 @@ fn replay_file(path: &str) -> String {
         "orswot_iter" => { c04::standin_orswot_iter(&mut r); true }
         "gset_merge" => { c11::standin_gset_merge(&mut r); true }
         "vclock_iter" => { c10::standin_vclock_iter(&mut r); true }
+        "c12" => { c12::search(&mut r, "thorough", cex["seed"].as_u64().unwrap_or(0)); true }
+        "identifier_between" => { c12::standin_identifier_between(&mut r, "thorough"); true }
+        "list_reads" => { c12::standin_list_reads(&mut r); true }
         _ => false,
     };
     if !known { return format!("{{\"error\": \"unknown search {}\"}}", search); }
